@@ -1,12 +1,251 @@
 package main
 
-func c09Unjournaled(c *Ctx, t *c09Tables) {}
+import (
+	"fmt"
+	"go/types"
+	"sort"
+	"strings"
+
+	"golang.org/x/tools/go/ssa"
+)
 
 func init() {
 	register(&propDef{
 		ID:          "C09",
-		Explanation: "Structural necessary conditions of snapshot/revert exactness, decided on the SSA form of core/state and staking: journaling of every revertable write, undo/do mirror, twin journals handled as one, un-journaled staking state mutated only where nothing can be reverted. Not decided: equality of observables before/after as values.",
-		Assumptions: []string{"the classification of StateDB/stateObject fields into revertable, bookkeeping and known-unjournaled (table in rules_c09.go) is right", "lifecycle functions (constructors, copies, cache loads, end-of-transaction flushes) need no journal"},
+		Explanation: "Structural necessary conditions of snapshot/revert exactness, decided on the SSA form of core/state and staking: journaling of every revertable write (J1), undo/do mirror (J2), twin journals handled as one (J3); the staking state that is NOT journaled (known finding F12: staking records, pending relationships, in-place edits of withdraw records and reward pools) is mutated by transaction handlers only on their success tail, after which no failure is possible (J4), and is unreachable from the EVM — the only user of snapshots and reverts (J5). Not decided: equality of observables before/after as values.",
+		Assumptions: []string{"the classification of StateDB/stateObject fields into revertable, bookkeeping and known-unjournaled (table in rules_c09.go) is right", "lifecycle functions (constructors, copies, cache loads, end-of-transaction flushes) need no journal", "the VTA call graph over-approximates calls between repository functions"},
 		Run:         runC09,
+		Variants:    c09Variants,
 	})
+}
+
+// stateMutatorNames: StateDB methods that change state (journaled or not).
+var stateMutatorNames = map[string]bool{
+	"AddBalance": true, "SubBalance": true, "SetBalance": true, "SetNonce": true, "SetCode": true, "SetState": true, "Suicide": true, "CreateAccount": true,
+	"AddLog": true, "AddRefund": true, "SubRefund": true, "AddPreimage": true,
+	"CreateValidator": true, "UpdateValidator": true, "RemoveValidator": true, "UpdateDelegation": true, "UpdateDelegator": true,
+	"AddWithdrawRecord": true, "RemoveWithdrawRecords": true,
+	"AddStakingRecord": true, "AddPendingRelationship": true, "ResetStakingTrie": true,
+}
+
+var unjournaledMutatorNames = map[string]bool{"AddStakingRecord": true, "AddPendingRelationship": true, "ResetStakingTrie": true}
+
+func isStateDBMethod(o *types.Func) bool {
+	if o == nil {
+		return false
+	}
+	r := recvName(o)
+	return (r == "StateDB" || r == "ValidatorReader") && o.Pkg() != nil && (o.Pkg().Path() == full("core/state") || o.Pkg().Path() == full("core/vm"))
+}
+
+// stakingMutationSummary computes, for the functions of package staking, which
+// mutate state (directly or through callees).
+func stakingMutationSummary(w *World) map[*ssa.Function]bool {
+	mut := map[*ssa.Function]bool{}
+	fns := w.FuncsIn("staking")
+	changed := true
+	for changed {
+		changed = false
+		for _, fn := range fns {
+			if mut[fn] {
+				continue
+			}
+			for _, ci := range callInstrs(fn) {
+				o := calleeObj(ci)
+				if isStateDBMethod(o) && stateMutatorNames[o.Name()] {
+					mut[fn] = true
+				}
+				if callee := ci.Common().StaticCallee(); callee != nil && mut[callee] {
+					mut[fn] = true
+				}
+			}
+			if mut[fn] {
+				changed = true
+			}
+		}
+	}
+	return mut
+}
+
+// noFailureAfterEffects: no return that may carry an error is reachable after
+// one of effects, except under the non-nil error of an effect tabled as
+// "mutates only when it returns nil".
+func noFailureAfterEffects(w *World, fn *ssa.Function, effects []ssa.Instruction, onNilOnly map[ssa.Instruction]bool) (bool, string) {
+	idx := errResultIdx(fn)
+	if idx < 0 {
+		return true, ""
+	}
+	for _, e := range effects {
+		for _, rpth := range returnPaths(fn, idx) {
+			if rpth.Kind == RetNil {
+				continue
+			}
+			after := (e.Block() == rpth.Ret.Block() && instrIndex(e) < instrIndex(rpth.Ret)) || (e.Block() != rpth.Ret.Block() && blockReaches(e.Block(), rpth.Ret.Block()) && !rpth.Ret.Block().Dominates(e.Block()))
+			if !after {
+				continue
+			}
+			if onNilOnly[e] {
+				if ci, ok := e.(ssa.CallInstruction); ok {
+					nonNil := false
+					for _, a := range rpth.Atoms() {
+						if a.Kind == "isnil" && !a.Truth && resultOf(a.X, ci, errIdx(ci)) {
+							nonNil = true
+						}
+					}
+					if nonNil || (rpth.Kind == RetForward && rpth.Call == ci) {
+						continue
+					}
+				}
+			}
+			return false, "the error return at " + w.Pos(rpth.Ret.Pos()) + " can follow the state change at " + w.Pos(e.Pos())
+		}
+	}
+	return true, ""
+}
+
+func c09Unjournaled(c *Ctx, t *c09Tables) {
+	w := c.W
+	// ------------------------------------------------------------ J4
+	c.Rule("C09.J4", "NO-EFFECT-BEFORE", "every registered staking transaction handler (there is no snapshot around them) changes state only on its success tail: after the first state change no error return is reachable, except under the error of a callee that itself mutates only when it succeeds. This keeps the un-journaled mutators of F12 (and every other mutator) from leaving a partial effect behind a failed transaction")
+	c.Min(9)
+	mut := stakingMutationSummary(w)
+	// handlers registered in init
+	var handlers []*ssa.Function
+	initFn := w.SSAPkg("staking").Func("init")
+	seen := map[*ssa.Function]bool{}
+	var scan func(fn *ssa.Function)
+	scan = func(fn *ssa.Function) {
+		if fn == nil || seen[fn] || fn.Blocks == nil {
+			return
+		}
+		seen[fn] = true
+		for _, b := range fn.Blocks {
+			for _, in := range b.Instrs {
+				if mu, ok := in.(*ssa.MapUpdate); ok {
+					if u, ok := mu.Map.(*ssa.UnOp); ok {
+						if g, ok := u.X.(*ssa.Global); ok && g.Name() == "handlers" {
+							if f, ok := stripConv(mu.Value).(*ssa.Function); ok {
+								handlers = append(handlers, f)
+							}
+						}
+					}
+				}
+				if ci, ok := in.(ssa.CallInstruction); ok {
+					if callee := ci.Common().StaticCallee(); callee != nil && callee.Pkg == fn.Pkg && strings.HasPrefix(callee.Name(), "init") {
+						scan(callee)
+					}
+				}
+			}
+		}
+	}
+	scan(initFn)
+	sort.Slice(handlers, func(i, j int) bool { return handlers[i].Name() < handlers[j].Name() })
+	if len(handlers) == 0 {
+		c.Undecided("staking.handlers", 0, "the handler registry could not be read from the package initialiser")
+	}
+	// helper functions that mutate and return an error are judged by the same rule
+	judged := map[*ssa.Function]bool{}
+	onlyOnNil := map[*ssa.Function]bool{}
+	var judge func(fn *ssa.Function) bool
+	judge = func(fn *ssa.Function) bool {
+		if judged[fn] {
+			return onlyOnNil[fn]
+		}
+		judged[fn] = true
+		var effects []ssa.Instruction
+		nilOnly := map[ssa.Instruction]bool{}
+		for _, ci := range callInstrs(fn) {
+			o := calleeObj(ci)
+			if isStateDBMethod(o) && stateMutatorNames[o.Name()] {
+				effects = append(effects, ci)
+				continue
+			}
+			if callee := ci.Common().StaticCallee(); callee != nil && mut[callee] {
+				effects = append(effects, ci)
+				if errIdx(ci) >= 0 && judge(callee) {
+					nilOnly[ci] = true
+				}
+			}
+		}
+		ok, why := noFailureAfterEffects(w, fn, effects, nilOnly)
+		c.sites += len(effects)
+		c.sawFunc(fname(fn))
+		c.Check(fname(fn)+"#mutates-only-on-success-tail", fn.Pos(), ok, ifelse(ok, fmt.Sprintf("%d state changes, none followed by a failure", len(effects)), why+": the transaction is reported failed but part of its effect stays (staking records and pending relationships are not journaled, and no snapshot surrounds the handler)"))
+		onlyOnNil[fn] = ok
+		return ok
+	}
+	for _, h := range handlers {
+		judge(h)
+	}
+
+	// ------------------------------------------------------------ J5
+	c.Rule("C09.J5", "CONFINED", "the un-journaled mutators (AddStakingRecord, AddPendingRelationship, ResetStakingTrie, the reward-pool setters of ValKindStat, in-place edits of WithdrawRecord.Finished / FinalBalance) are not reachable from the EVM, the only code that takes snapshots and reverts to them; their callers are tabled")
+	c.Min(6)
+	reach := w.ReachableFrom([]*ssa.Function{
+		w.Fn("core/vm", "EVM", "Call"), w.Fn("core/vm", "EVM", "CallCode"), w.Fn("core/vm", "EVM", "DelegateCall"), w.Fn("core/vm", "EVM", "StaticCall"),
+		w.Fn("core/vm", "EVM", "Create"), w.Fn("core/vm", "EVM", "Create2"), w.Fn("core/vm", "EVMInterpreter", "Run"),
+	}, nil)
+	unj := []*ssa.Function{
+		w.Fn(statePkg, "StateDB", "AddStakingRecord"), w.Fn(statePkg, "StateDB", "AddPendingRelationship"), w.Fn(statePkg, "StateDB", "ResetStakingTrie"),
+		w.Fn(statePkg, "ValKindStat", "AddRewards"), w.Fn(statePkg, "ValKindStat", "SetRewardsResidue"), w.Fn(statePkg, "ValKindStat", "ResetRewards"),
+	}
+	for _, f := range unj {
+		_, r := reach[f]
+		c.sites++
+		c.Check(fname(f)+"#unreachable-from-evm", f.Pos(), !r, ifelse(!r, "not reachable from EVM frames", "an un-journaled mutator is reachable from the EVM ("+pathTo(reach, f)+"): a reverting call frame cannot undo it"))
+	}
+	allowedCallers := map[string]map[string]bool{
+		"AddStakingRecord":       {"staking.handleCreate": true, "staking.handleUpdate": true, "staking.handleDeposit": true, "staking.handleWithdraw": true, "staking.handleSettle": true, "staking.handleChangeStatus": true, "staking.checkAndUpdateTotalPendingStakesOfValidator": true, "staking.addPendingDelegationRecordAndLog": true},
+		"AddPendingRelationship": {"staking.handleDelegationAdd": true},
+		"ResetStakingTrie":       {"core.ResetStakingTrieOnNewPeriod": true},
+		"AddRewards":             {"staking.rewardsToPool": true},
+		"SetRewardsResidue":      {"staking.rewardsToPool": true},
+		"ResetRewards":           {"(staking.Staking).distributeRewards": true},
+	}
+	for _, fn := range w.AllFuncs() {
+		if strings.HasSuffix(w.fileOf(fn.Pos()), "_test.go") {
+			continue
+		}
+		for _, ci := range callInstrs(fn) {
+			o := calleeObj(ci)
+			if o == nil {
+				continue
+			}
+			al, ok := allowedCallers[o.Name()]
+			if !ok || !(isStateDBMethod(o) || recvName(o) == "ValKindStat") {
+				continue
+			}
+			n := outerName(fname(fn))
+			c.sites++
+			c.Check(n+"#calls-"+o.Name(), ci.Pos(), al[n], ifelse(al[n], "tabled caller (handler success tail / end of block)", "a new caller of the un-journaled mutator "+o.Name()+": if it runs where a snapshot can be reverted afterwards, the revert does not undo it"))
+		}
+	}
+	// in-place edits of withdraw records
+	fin := w.Field(statePkg, "WithdrawRecord", "Finished")
+	for _, fn := range w.AllFuncs() {
+		if strings.HasSuffix(w.fileOf(fn.Pos()), "_test.go") {
+			continue
+		}
+		for _, fw := range fieldWrites(fn) {
+			if fw.Field != fin || isLocalAlloc(fw.Base) {
+				continue
+			}
+			n := outerName(fname(fn))
+			ok := n == "staking.processWithdrawQueue" || n == "staking.addWithdrawLog" || strings.HasSuffix(n, ".DecodeRLP") || strings.HasSuffix(n, ".DeepCopy")
+			_, r := reach[fn]
+			c.Check(n+"#edits-WithdrawRecord.Finished", fw.Instr.Pos(), ok && !r, ifelse(ok && !r, "end-of-block edit, unreachable from EVM frames", "a withdraw record is edited in place by a new function or one reachable from the EVM: the journal cannot undo it"))
+		}
+	}
+}
+
+func c09Variants() []Variant {
+	return []Variant{
+		{Name: "nonce-without-journal", File: "core/state/state_object.go", Old: "func (so *stateObject) SetNonce(nonce uint64) {\n	so.db.journal.append(nonceChange{\n		account: &so.address,\n		prev:    so.data.Nonce,\n	})\n	so.setNonce(nonce)", New: "func (so *stateObject) SetNonce(nonce uint64) {\n	so.setNonce(nonce)", Rule: "C09.J1", Construct: "SetNonce"},
+		{Name: "direct-balance-writer", File: "core/state/state_object.go", Old: "func (so *stateObject) SubBalance(amount *big.Int) {\n	if amount.Sign() == 0 {\n		return\n	}\n	so.SetBalance(new(big.Int).Sub(so.Balance(), amount))", New: "func (so *stateObject) SubBalance(amount *big.Int) {\n	if amount.Sign() == 0 {\n		return\n	}\n	so.data.Balance = new(big.Int).Sub(so.Balance(), amount)", Rule: "C09.J1", Construct: "SubBalance"},
+		{Name: "log-revert-without-size", File: "core/state/journal.go", Old: "		s.logs[ch.txhash] = logs[:len(logs)-1]\n	}\n	s.logSize--\n", New: "		s.logs[ch.txhash] = logs[:len(logs)-1]\n	}\n", Rule: "C09.J2", Construct: "AddLog"},
+		{Name: "suicide-revert-without-balance", File: "core/state/journal.go", Old: "		obj.suicided = ch.prev\n		obj.setBalance(ch.prevbalance)", New: "		obj.suicided = ch.prev", Rule: "C09.J2", Construct: "Suicide"},
+		{Name: "truncate-with-other-index", File: "core/state/statedb.go", Old: "	st.valValidRevisions = st.valValidRevisions[:valIdx]", New: "	st.valValidRevisions = st.valValidRevisions[:idx]", Rule: "C09.J3", Construct: "truncation"},
+		{Name: "forget-one-reset", File: "core/state/statedb.go", Old: "	st.validRevisions = st.validRevisions[:0]\n	st.valValidRevisions = st.valValidRevisions[:0]\n", New: "	st.validRevisions = st.validRevisions[:0]\n", Rule: "C09.J3", Construct: "clearJournalAndRefund"},
+		{Name: "record-before-balance-check", File: "staking/handler.go", Old: "	db := ctx.State\n	if !core.CanTransfer(db, ctx.Msg.From(), tx.Value) {\n		return errInsufficientBalanceForDeposit\n	}\n", New: "	db := ctx.State\n	db.AddStakingRecord(common.Address{}, tx.MainAddress, ctx.Msg.TxHash(), nil)\n	if !core.CanTransfer(db, ctx.Msg.From(), tx.Value) {\n		return errInsufficientBalanceForDeposit\n	}\n", Rule: "C09.J4", Construct: "handleDeposit"},
+	}
 }
